@@ -22,9 +22,14 @@ ENV = dict(os.environ, CARGO_NET_OFFLINE="true", CARGO_TERM_COLOR="never")
 
 
 def sh(cmd, cwd=None, timeout=3600, env=None):
-    p = subprocess.run(cmd, cwd=cwd, shell=isinstance(cmd, str), env=env or ENV, stdout=subprocess.PIPE, stderr=subprocess.STDOUT,
-                       text=True, errors="replace", timeout=timeout)
-    return p.returncode, p.stdout
+    try:
+        p = subprocess.run(cmd, cwd=cwd, shell=isinstance(cmd, str), env=env or ENV, stdout=subprocess.PIPE, stderr=subprocess.STDOUT,
+                           text=True, errors="replace", timeout=timeout, start_new_session=True)
+        return p.returncode, p.stdout
+    except subprocess.TimeoutExpired as e:
+        # a demonstration that hangs (non-termination seeds): kill the whole process group, report as failure
+        subprocess.run("pkill -9 -f %s" % (cwd or "seed_demo"), shell=True)
+        return 124, "[timeout after %ss]" % timeout
 
 
 def suite(wt):
@@ -53,7 +58,7 @@ def demo(wt, demo_src):
         os.makedirs(os.path.join(wt, "impl", "tests"), exist_ok=True)
         dst = os.path.join(wt, "impl", "tests", "seed_demo.rs")
         shutil.copy(demo_src, dst)
-        rc, out = sh("cargo test -p derive_more-impl --features full --test seed_demo --offline", cwd=wt)
+        rc, out = sh("cargo test -p derive_more-impl --features full --test seed_demo --offline", cwd=wt, timeout=600)
         os.remove(dst)
         m = re.findall(r"^test result: (\w+)\. (\d+) passed; (\d+) failed", out, re.M)
         return rc, m, out
@@ -61,7 +66,7 @@ def demo(wt, demo_src):
     env = dict(ENV)
     if "#![feature(" in open(demo_src).read():
         env["RUSTC_BOOTSTRAP"] = "1"   # the demonstration itself needs a nightly feature (e.g. Backtrace fields)
-    rc, out = sh("cargo test --offline --features full --test seed_demo", cwd=wt, env=env)
+    rc, out = sh("cargo test --offline --features full --test seed_demo", cwd=wt, env=env, timeout=600)
     os.remove(os.path.join(wt, "tests", "seed_demo.rs"))
     m = re.findall(r"^test result: (\w+)\. (\d+) passed; (\d+) failed", out, re.M)
     return rc, m, out
